@@ -279,7 +279,9 @@ class SccContext:
       elif processed_caption is not None:
         processed_caption.append_text(" ")
 
-      self.current_color = color
+      if color is not None:
+        # the italics mid-row codes do not change the color
+        self.current_color = color
       self.current_font_style = font_style
       self.current_text_decoration = text_decoration
 
